@@ -130,7 +130,21 @@ func groupRoot(c *fw.Case, withID bool) (*model.Root, string, error) {
 		rows = maxRows/4 + rng.Intn(maxRows*3/4)
 	}
 	var f *model.Frame
-	if c.No%7 == 3 {
+	if c.No%500 == 17 {
+		// very high cardinality: tens of thousands of distinct keys recurring after every growth step of the table
+		class = "huge-cardinality"
+		rows = 90000 + rng.Intn(90000)
+		card := rows/3 + rng.Intn(rows/6)
+		ki := model.NewCol("ki", model.KInt, rows)
+		ks := model.NewCol("ks", model.KString, rows)
+		for i := 0; i < rows; i++ {
+			v := rng.Intn(card)
+			ki.I[i] = v*7919 - 1000000
+			ks.S[i] = model.StrP(fmt.Sprintf("k%d", v%997))
+		}
+		f = &model.Frame{Cols: []*model.Col{ki, ks}}
+	}
+	if f == nil && c.No%7 == 3 {
 		if cs := findCollisions(c); len(cs.intPairs)+len(cs.strPairs) > 0 {
 			class = "collision"
 			n := []int{4, 8, 16, 64, 500, 4000}[rng.Intn(6)]
@@ -586,6 +600,21 @@ func runC04(c *fw.Case) {
 		}
 		seenClass := map[int]bool{}
 		bad := false
+		if len(classes) > 3000 {
+			// too many groups to observe each one: the recording aggregation below still sees every group's rows
+			total := 0
+			for _, gf := range frames {
+				total += gf.Len()
+			}
+			if total != sh.Len() {
+				c.Fail("groups-rows:"+vkey, "%s: the groups hold %d rows in total, the frame has %d", desc, total, sh.Len())
+				bad = true
+			}
+			frames = nil
+			for ci := range classes {
+				seenClass[ci] = true
+			}
+		}
 		for gi, gf := range frames {
 			gs, oerr := model.ObserveGuard(gf)
 			if oerr != nil {
@@ -611,7 +640,7 @@ func runC04(c *fw.Case) {
 				break
 			}
 		}
-		if !bad && len(frames) != len(classes) {
+		if !bad && frames != nil && len(frames) != len(classes) {
 			c.Fail("groups-count:"+vkey, "%s: %d groups returned, reference partition has %d classes", desc, len(frames), len(classes))
 			bad = true
 		}
